@@ -157,11 +157,11 @@ def gen_history(schema, ty, rnd, n, emphasis=None):
         elif c < w_set:
             f = rnd.choice(mem) if (mem and (emphasis == "oneof" or rnd.random() < .4)) else rnd.choice(fields)
             ops.append({"op": "set", "f": f["name"], "v": rand_value(schema, f, rnd)})
-        elif c < w_set + .08 and msgf:
+        elif c < w_set + (.14 if emphasis == "presence" else .08) and msgf:
             f = rnd.choice(msgf)
             g = rnd.choice(schema["types"][f["msg"]])
             if g["card"] == "implicit" and g["kind"] not in ("message", "map", "wrap", "timestamp", "duration"):
-                if rnd.random() < .3:
+                if rnd.random() < (.5 if emphasis == "presence" else .3):
                     # m.<f>.<x> = m.<f>.<x>: the value read (possibly the lazily created default, the very same object) is assigned back
                     ops.append({"op": "selfin", "f": f["name"], "x": g["name"]})
                 else:
